@@ -431,12 +431,13 @@ def c11(ctx):
 
 
 MULTI_BASE = dict(TS=0, TE=4, MaxSp=2, N=3, MRTS4=0, TAU4=0, RIFlag="FALSE", IdxMode='"none"', IvCodes="{0}",
-                  ThrCodes="{12}", Sample=0, PoolMode='"all"')
+                  ThrCodes="{12}", Sample=0, PoolMode='"all"', ErrorPaths="FALSE")
 
 
 def _multi(ctx, cfg, fns, invs, checks, what, backends=("py", "shim"), chunk=300):
     c = dict(MULTI_BASE)
     c.update(cfg)
+    only_bad = c.pop("FnFilter", None) == "bad"
     c["FnSet"] = "{" + ", ".join('"%s"' % f for f in fns) + "}"
     c = _neg(c)
     res = run_tlc("Multi", c, invs + ["WellFormed", "Export"], workers=16, timeout=6000,
@@ -445,6 +446,10 @@ def _multi(ctx, cfg, fns, invs, checks, what, backends=("py", "shim"), chunk=300
     if res.violated:
         return []
     ex = res.exports
+    if only_bad:
+        ex = [r for r in ex if r["res"]["t"] == "error"]
+    else:
+        ex = [r for r in ex if r["res"]["t"] != "error"]
     seen = set()
     for r in ex:
         key = (r["call"]["fn"], len(r["call"]["idx"]), r["call"]["iv"] != 0)
@@ -581,6 +586,9 @@ def c18(ctx):
             dict(N=3, MaxSp=3, TE=5, Sample=6 if q else 12, IvCodes="{0, 307}", MRTS4=10, TAU4=0)]
     for r in runs:
         _multi(ctx, r, ALL_FNS, [], ["multi_wf"], "every entry point on lists of degenerate trains: well-formed result", chunk=200)
+    # calls the library rejects (invalid index, interval for the order functions): modelled, bound as advisory only
+    _multi(ctx, dict(N=3, Sample=2, ErrorPaths="TRUE", FnFilter="bad"), ALL_FNS, ["ErrorIsRejected"], ["multi_abs"],
+           "error paths (advisory)")
     ctx.assumptions += ["degenerate slice: trains with no spike, one spike (every grid position incl. both edges), spikes on both "
                         "edges, identical trains; plus a sampled slice of ordinary trains"]
     return ctx.finish(rule="lists of 2..4 degenerate trains x every public entry point x keyword setting x interval; "
